@@ -1,4 +1,9 @@
-"""C15 — spec text can never alter the structure of generated code."""
+"""C15 — spec text can never alter the structure of generated code.
+
+The recorded finding F25 is identified per CELL (text position x payload class) of the oracle's matrix: known_findings.json lists the
+cells that fail on the unchanged tree; a failure in any other cell is a violation.  Random payloads are attributed through the
+dangerous characters they contain (the characters of the dictionary classes that are known to fail at the same position).
+"""
 from __future__ import annotations
 
 from .. import findings
@@ -6,16 +11,54 @@ from . import _generic as g
 
 PROP = "C15"
 CORR = "vf.corr.c15"
-F25 = ["enum-value-unescaped", "meta-key-unescaped", "param-name-unescaped", "header-name-unescaped", "discriminator-key-unescaped", "media-type-unescaped",
-       "literal-split-by-splitlines", "default-astral-surrogates", "comment-cr", "docstring-triple-quote", "docstring-trailing-quote", "docstring-bad-escape",
-       "title-in-docstring", "nul-byte-in-source"]
-CLASSES = {c: "F25" for c in F25}
+CLASS_CHARS = {"dquote": ['"'], "triple-dquote": ['"""'], "trailing-dquote": ['"'], "backslash-n": ["\\"], "trailing-backslash": ["\\"], "bad-escape": ["\\"],
+               "named-escape": ["\\"], "escaped-A": ["\\"], "newline": ["\n"], "cr": ["\r"], "nul": ["\x00"], "formfeed": ["\x0c", "\x0b", "\x1c", "\x1d", "\x1e", "\x85"],
+               "u2028": [" ", " "], "astral": None}
+
+
+def known_cell(cells: set, position: str, payload_class: str, payload: str) -> bool:
+    if (position, payload_class) in cells:
+        return True
+    if payload_class.startswith("random"):
+        for (pos, cls) in cells:
+            if pos != position or cls.startswith("random"):
+                continue
+            chars = CLASS_CHARS.get(cls)
+            if chars is None:
+                if any(ord(c) > 0xFFFF for c in payload):
+                    return True
+            elif any(ch in payload for ch in chars):
+                return True
+    return False
 
 
 def check(run, ctx) -> None:
+    import importlib
+    import time
+    from ..common import seed
     known = findings.Known(run, PROP)
     g.run_corr(run, ctx, CORR, "PyLex (refereed by ast) + Sinks (every renderer vs the real one)", quick=0.8, thorough=6.0)
-    g.run_oracle(run, ctx, known, CORR, "C15 position x payload matrix through the whole generator", CLASSES, quick=0.7, thorough=5.0)
+    mod = importlib.import_module(CORR)
+    t0 = time.time()
+    res = mod.oracle(seed(), g.scale_of(ctx, 0.7, 5.0))
+    run.cov["evaluations"] += int(res.get("evaluations", 0))
+    run.cov.setdefault("oracle_evaluations", {})["position x payload matrix through the whole generator"] = int(res.get("evaluations", 0))
+    run.cov.setdefault("oracle_wall_s", {})["matrix"] = round(time.time() - t0, 1)
+    cells = {tuple(c) for c in (known.entries.get("F25", {}).get("cells") or [])}
+    seen_known = 0
+    per = {}
+    for f in res.get("failures", []):
+        c = f.get("case", {})
+        pos, cls, payload = c.get("position", "?"), c.get("payload_class", "?"), c.get("payload", "")
+        per[f.get("class", "?")] = per.get(f.get("class", "?"), 0) + 1
+        if known.listed("F25") and known_cell(cells, pos, cls, payload):
+            seen_known += 1
+            known.hit("F25", {"position": pos, "payload_class": cls})
+        elif len(run.violations) < 5:
+            run.violation("input", {"oracle": "matrix", "module": CORR, "class": f.get("class"), "case": c}, observed=f.get("observed"), expected=f.get("expected"),
+                          what=f"hostile text at {pos} ({cls}: {payload[:40]!r}) is not rendered inertly: {str(f.get('observed'))[:200]} - this (position, payload) cell is not a recorded finding")
+    run.cov.setdefault("oracle_failure_classes", {})["matrix"] = per
+    run.cov["known_cells_hit"] = seen_known
     known.report_unreplayed()
 
 
